@@ -35,6 +35,10 @@ func NewOverlay(inner KeyValueTree) OverlayTree {
 
 // Implements KeyValueTree.
 func (o *treeOverlay) Insert(_ context.Context, key, value []byte) error {
+	// As in the tree itself, a nil value is the empty value (nil means absence in Get).
+	if value == nil {
+		value = []byte{}
+	}
 	o.overlay.Set(string(key), value)
 	o.dirty[string(key)] = true
 	return nil
